@@ -114,7 +114,7 @@ ADDENDA = {
             " Also decides that every emitted statement that reassembles a 64-bit parameter zero-extends the low half before OR-ing the shifted high half.", ""),
     "C08": ("; must-hold analysis of the initialiser calls of orc_init and ordering of its once flag",
             " Also decides that orc_init runs every initialiser with the global mutex held (or inside a once region) and publishes its flag only after they finish.",
-            " Declined after building: once-pairing inside generated --lazy-init wrappers (C08-D6 of the plan)."),
+            " Thorough tier: orcc built from the tree generates the wrappers of testsuite/test.orc and orc/orcfunctions.orc (518 functions) and each is analysed as C code: once pairing on every path, no mutable static object, executor on the stack."),
     "C10": ("; side-of-event comparison for every branch/label pair emitted by orc_x86_compile; REX coverage of opcode-embedded register numbers",
             " Also decides that no branch emitted by orc_x86_compile jumps across save_registers / set_mxcsr / restore_mxcsr / restore_registers, and that push/pop carry bit 3 of the register in a REX prefix (so r12..r15 are the registers actually saved).",
             " Only the SysV AMD64 arm of the ABI table is decided (the i386 arm is not in this build's AST)."),
